@@ -21,7 +21,7 @@ from vf.xmodel import build_api, Schema, Rop
 
 SHARDS = {'quick': 16, 'thorough': 64}
 TIMEOUT = {'quick': 1200, 'thorough': 7200}
-MUST_HIT = ['Schema.identifier-referred-to-in-two-attribute-orders', 'Schema.association-number-declared-in-two-separate-runs', 'Input.short-positional-row', 'Join.api-reflexive-pairs', 'Join.api-batch-relate', 'EarlierObject.rechecked', 'Join.loader', 'Canon.permutation', 'Canon.partition-inputs', 'Canon.files',
+MUST_HIT = ['Input.part-without-final-line-break', 'Schema.identifier-referred-to-in-two-attribute-orders', 'Schema.association-number-declared-in-two-separate-runs', 'Input.short-positional-row', 'Join.api-reflexive-pairs', 'Join.api-batch-relate', 'EarlierObject.rechecked', 'Join.loader', 'Canon.permutation', 'Canon.partition-inputs', 'Canon.files',
             'Canon.directory-tree', 'Canon.zip', 'Join.api-new', 'Join.api-clone', 'Canon.inferred-schema',
             'Join.null-key', 'Join.duplicate-key', 'Join.dangling-key', 'Join.multi-attribute-key']
 MUST_REACH = ['xtuml/load.py:ModelLoader.populate_connections', 'xtuml/meta.py:Link.compute_lookup_key',
@@ -199,7 +199,17 @@ def partition(rng, stmts, nparts):
             # comment lines between the statements (also ones that look like statements)
             part.append(rng.choice(('-- a comment', "-- INSERT INTO X VALUES (1, 'a');", '--', '-- CREATE TABLE Y (Id UNIQUE_ID);')))
         part.append(s)
-    return ['\n'.join(p) + '\n' for p in parts]
+    out = []
+    for p in parts:
+        # how a part ends: with a line break, without one, or with a line comment that the end of the text terminates
+        end = rng.choice(('\n', '\n', '', '\n-- end', ' -- last line, no line break', '\n--', '  '))
+        if end.lstrip().startswith('--') or end == '':
+            PART_ENDINGS[0] += 1
+        out.append('\n'.join(p) + end)
+    return out
+
+
+PART_ENDINGS = [0]      # parts that end in a comment or a statement without a final line break
 
 
 def loader_checks(ctx, rng, schema, pop, tmpdir):
@@ -591,6 +601,7 @@ def run(ctx):
             except Mismatch as e:
                 ctx.violation(e.key, e.what, case=dict(part='inferred'))
         ctx.hit('Input.short-positional-row', sqlgen.SHORT_ROWS[0])
+        ctx.hit('Input.part-without-final-line-break', PART_ENDINGS[0])
         for k, v in sqlgen.SHAPES.items():
             ctx.hit('Schema.' + k, v)
     finally:
